@@ -24,7 +24,7 @@ RULE = ('the family of signatures {0-3 positional-or-keyword params x default su
         'positional arguments x every subset of keyword names x one unknown keyword; injected for each '
         'parameter (list and plain-string form), for every pair of parameters, and together with expected; expected '
         'for a new name with and without default (list, pairs, mapping) and for two new names; plus families with '
-        'equal-but-distinct defaults, falsy defaults (None, 0, "", False, ()), and arbitrary objects as defaults and '
+        'stacked wrappers (__wrapped__ of the outer one is the inner one), the wrapped function re-inspected afterwards, equal-but-distinct defaults, falsy defaults (None, 0, "", False, ()), and arbitrary objects as defaults and '
         'annotations (NaN, unhashable, no usable repr, forward-reference strings; identity of mutable defaults); '
         'distinct = distinct (signature, call shape) pairs evaluated')
 ASSUMPTIONS = [
@@ -270,6 +270,44 @@ def check(c, st):
             return ('call:' + kind, '%s called with args=%r kwargs=%r: original %r, wrapper %r'
                     % (source(sig).splitlines()[0], args, kwargs, rf, rw))
         st.count('call_shapes')
+    # stacked decorators: the wrapper is wrapped again (it already carries __wrapped__ and the copied __dict__)
+    if is_async:
+        async def outer_pt(*a, **kw):
+            return await w(*a, **kw)
+    else:
+        def outer_pt(*a, **kw):
+            return w(*a, **kw)
+    st.monitor_evals += 1
+    try:
+        w2 = fu.wraps(w)(outer_pt)
+    except Exception as e:
+        return ('wraps-raised:stacked:%s' % type(e).__name__, 'wraps(wraps(f)(g))(h) raised %r for %s' % (e, source(sig).splitlines()[0]))
+    if getattr(w2, '__wrapped__', None) is not w:
+        return ('metadata:__wrapped__:stacked', 'outer.__wrapped__ is %r, not the function it wraps (%s)'
+                % (getattr(w2, '__wrapped__', None), source(sig).splitlines()[0]))
+    d = sigdiff(sf, inspect.signature(w2, follow_wrapped=False))
+    if d:
+        return ('signature:%s:stacked' % d, '%s -> twice-wrapped signature %s' % (source(sig).splitlines()[0],
+                                                                                 inspect.signature(w2, follow_wrapped=False)))
+    for attr in ('__name__', '__doc__', '__module__'):
+        if getattr(w2, attr, None) != getattr(f, attr):
+            return ('metadata:%s:stacked' % attr, '%s: %r vs %r' % (attr, getattr(w2, attr, None), getattr(f, attr)))
+    if getattr(w2, 'custom_attr', None) != 'x' or getattr(w, 'custom_attr', None) != 'x':
+        return ('metadata:__dict__', 'function attributes not carried over: %r' % (getattr(w2, '__dict__', None),))
+    for npositional, subset, unknown in shapes[:12]:
+        args = tuple('p%d' % i for i in range(npositional))
+        kwargs = {n: 'kw_' + n for n in subset}
+        if unknown:
+            kwargs['zz_unknown'] = 'u'
+        st.monitor_evals += 1
+        if call(f, is_async, args, kwargs) != call(w2, is_async, args, kwargs):
+            return ('call:stacked', '%s called through two wrappers with args=%r kwargs=%r: original %r, wrapper %r'
+                    % (source(sig).splitlines()[0], args, kwargs, call(f, is_async, args, kwargs),
+                       call(w2, is_async, args, kwargs)))
+    # the wrapped function itself must come out of all this untouched (its defaults, annotations, attributes)
+    sf_after = inspect.signature(f)
+    if sigdiff(sf, sf_after) or f.__dict__.get('custom_attr') != 'x' or '__wrapped__' in f.__dict__:
+        return ('wrapped-function-modified', '%s became %s / %r' % (sf, sf_after, f.__dict__))
     # injected: each parameter in turn
     params = list(sf.parameters.values())
     for p in params:
@@ -353,6 +391,12 @@ def check(c, st):
                 continue
             return res
         st.count('expected_checks')
+    sf_after = inspect.signature(f)
+    st.monitor_evals += 1
+    if sigdiff(sf, sf_after) or call(f, is_async, tuple('p%d' % i for i in range(sig['npos'])),
+                                      {n: 'v' for n, dflt in zip(KWO, sig['kwodef']) if not dflt})[0] != 'ok':
+        return ('wrapped-function-modified', 'after wraps(..., injected/expected) the wrapped function itself changed: '
+                '%s became %s' % (sf, sf_after))
     st.count('signatures')
     return None
 
